@@ -1,7 +1,7 @@
 """Per-property configuration of ./check: theorem modules, expected theorem names, suites, projections."""
 
 NOT_APPLICABLE = {}
-HOOK_COMMITS = ["4cf513d"]
+HOOK_COMMITS = ["4cf513d", "81f8cfa"]
 
 LEVEL_NOTE_SRV = ("Theorems are about the sequential Lean model of the C2S server (one request handled to quiescence at a time); "
                   "the model is tied to /repo by running the real server in-process on the same histories (srv/acl suites) and by "
@@ -385,3 +385,20 @@ PROPS["C17"] = {
                   "capacity-1 channel.",
     "assumptions": ["a connection is registered once, under one username (Router invariant, C05/C07)"],
 }
+
+
+# the real S2mClient against a scripted S2M peer (hook H1): reply -> verdict mapping, broken / late / unsolicited replies
+S2M_SUITE = {"kind": "lines", "nvh_suite": "s2m", "driver_suite": "s2m", "op_prefixes": ["s2m "], "cases": {"quick": 400, "thorough": 12000}}
+for _p, _tags in (("C08", ["C08", "C16"]), ("C09", ["C09", "C16"]), ("C16", ["C16"])):
+    PROPS[_p]["suites"]["s2m"] = dict(S2M_SUITE, oracle_tags=_tags)
+for _p in ("C08", "C09"):
+    PROPS[_p]["theorems"] = list(PROPS[_p]["theorems"]) + ["Narwhal.Theorems.C08S2m"]
+    PROPS[_p]["audit_files"] = list(PROPS[_p]["audit_files"]) + ["Narwhal/Model/S2m.lean"]
+PROPS["C08"]["expect_theorems"] = list(PROPS["C08"]["expect_theorems"]) + ["Narwhal.S2m.C08_valid_only_on_positive_ack", "Narwhal.S2m.C08_C09_everything_else_fails"]
+PROPS["C09"]["expect_theorems"] = list(PROPS["C09"]["expect_theorems"]) + ["Narwhal.S2m.C09_success_only_on_positive_ack", "Narwhal.S2m.C09_continue_only_with_challenge",
+                                                                       "Narwhal.S2m.C08_C09_everything_else_fails"]
+PROPS["C08"]["level_text"] += (" The S2M client layer is proved fail-closed (Valid only from valid=true without attachment, altered only to the bytes of an "
+                               "attachment that arrived intact, everything else — errors, other frames, silence, broken attachments — an error) and tied by "
+                               "running the real S2mClient against a scripted peer.")
+PROPS["C09"]["level_text"] += (" The S2M client layer is proved fail-closed (Success only from S2M_AUTH_ACK succeeded=true with a username, then that username) "
+                               "and tied by running the real S2mClient against a scripted peer.")
